@@ -156,6 +156,12 @@ def classify(text, root, r, u, r2, prefix=''):
         allr = fn(allr)
     if changed and allr != text and _plain_violation(allr, root, prefix) is None:
         return changed[0]
+    if changed and allr != text:
+        # the listed causes that have a text repair, together with one that has none (F42, F31, F40): what remains after the
+        # repairs must itself be a listed class
+        rest = round_trip_violation(allr, root, prefix)
+        if rest is not None and rest[1] is not None:
+            return changed[0]
     # F40: a referenced FOOTNOTE block that was the only member of a wrapper group (hcontainer / intro / wrapUp) leaves
     # the wrapper behind empty; the unparser has nothing to write for it. Causal test on the trees: x with its empty
     # wrappers removed and its eIds regenerated by the real generator is exactly what the round trip gives.
@@ -272,7 +278,7 @@ def run(ctx, info):
         cases.append((t, root, rng.choice(['', '', 'att_1'])))
     pw = gen.pairwise_docs()   # every construct inside every context; a third of them in the quick tier, the two small
     # targeted families (footnote references at depth, two-line remarks in every position) on every run
-    cases += [(t, r, '') for i, (nm, t, r) in enumerate(pw) if ctx.tier == 'thorough' or i % 3 == ctx.seed % 3 or 'fn-depth' in nm or 'remark2' in nm]
+    cases += [(t, r, '') for i, (nm, t, r) in enumerate(pw) if ctx.tier == 'thorough' or i % 3 == ctx.seed % 3 or 'fn-depth' in nm or 'remark2' in nm or 'judgment/empty' in nm]
     nb = 0
     known = {}
     trees = []
